@@ -156,19 +156,33 @@ FaultVerdict(r, f, ik) ==
                 embedded |-> certificate id or "none", verifier |-> certificate id of the
                 issuer handed to ParseResponse].
    Key roles: KI issuer, KO another CA, KR delegated responder, KX a stranger.
-   Certificates (subject, key, issuer name, signing key):
-     I  (I,KI,I,KI)  O (O,KO,O,KO)   the two CAs (self-signed)
-     R  (R,KR,I,KI)  delegated responder, properly issued
-     R2 (R,KR,I,KI)  a second certificate for the same responder key
-     Ro (R,KR,O,KO)  responder certified by the other CA
-     Rf (R,KR,I,KO)  names the issuer but is signed by the other CA's key
-     Rs (R,KR,R,KR)  self-signed responder
-     Rx (X,KX,I,KI)  properly issued certificate of a stranger *)
-CertSpec == [I  |-> <<"I", "KI", "I", "KI">>, O  |-> <<"O", "KO", "O", "KO">>,
-             R  |-> <<"R", "KR", "I", "KI">>, R2 |-> <<"R", "KR", "I", "KI">>,
-             Ro |-> <<"R", "KR", "O", "KO">>, Rf |-> <<"R", "KR", "I", "KO">>,
-             Rs |-> <<"R", "KR", "R", "KR">>, Rx |-> <<"X", "KX", "I", "KI">>]
-CertIds == {"I", "O", "R", "R2", "Ro", "Rf", "Rs", "Rx"}
+   Certificates (subject, key, issuer name, signing key, key role whose identifier is
+   used as subjectKeyId or "-"):
+     I  (I,KI,I,KI,KI)  O (O,KO,O,KO,KO)   the two CAs (self-signed)
+     R  (R,KR,I,KI,-)   delegated responder, properly issued
+     R2 (R,KR,I,KI,-)   a second certificate for the same responder key
+     Ro (R,KR,O,KO,-)   responder certified by the other CA
+     Rf (R,KR,I,KO,-)   names the issuer but is signed by the other CA's key
+     Rs (R,KR,R,KR,-)   self-signed responder
+     Rx (X,KX,I,KI,-)   properly issued certificate of a stranger
+   Name collisions - the party is identified by the *key* that signed, never by a name or
+   key identifier it carries:
+     Rn  (I,KR,I,KR,-)  carries the issuer's subject, own key, self-signed
+     Rm  (I,KR,X,KX,-)  carries the issuer's subject, own key, signed by a stranger
+     Rnx (I,KR,I,KX,-)  issuer's subject, names the issuer as its issuer, signed by a stranger
+     Rns (I,KR,I,KR,KI) as Rn, and with the issuer's subjectKeyId octets
+     Rms (I,KR,X,KX,KI) as Rm, and with the issuer's subjectKeyId octets
+   None of the five is signed by KI, so none of them can make Via hold for verifier I. *)
+CertSpec == [I  |-> <<"I", "KI", "I", "KI", "KI">>, O  |-> <<"O", "KO", "O", "KO", "KO">>,
+             R  |-> <<"R", "KR", "I", "KI", "-">>, R2 |-> <<"R", "KR", "I", "KI", "-">>,
+             Ro |-> <<"R", "KR", "O", "KO", "-">>, Rf |-> <<"R", "KR", "I", "KO", "-">>,
+             Rs |-> <<"R", "KR", "R", "KR", "-">>, Rx |-> <<"X", "KX", "I", "KI", "-">>,
+             Rn |-> <<"I", "KR", "I", "KR", "-">>, Rm |-> <<"I", "KR", "X", "KX", "-">>,
+             Rnx |-> <<"I", "KR", "I", "KX", "-">>,
+             Rns |-> <<"I", "KR", "I", "KR", "KI">>, Rms |-> <<"I", "KR", "X", "KX", "KI">>]
+CertIds == {"I", "O", "R", "R2", "Ro", "Rf", "Rs", "Rx", "Rn", "Rm", "Rnx", "Rns", "Rms"}
+NameCollisionIds == {"Rn", "Rm", "Rnx", "Rns", "Rms"}
+EmbeddedIds == {"none", "R", "Ro", "Rf", "Rs", "Rx"} \cup NameCollisionIds
 
 AlgOf(key) == "alg-" \o key        \* the algorithm a key signs with (one per key here)
 
@@ -184,14 +198,26 @@ Resp(sc) ==
 KeyOfCert(id) == CertSpec[id][2]
 SubjectOf(id) == CertSpec[id][1]     \* the responder name a response carries
 
+\* responder: the certificate whose subject becomes the responder ID - the embedded one (or
+\* the issuer when none is embedded), and additionally always the issuer itself: a response
+\* that *names* the issuer as responder while somebody else signed it.
 Scenarios ==
-  {[signer |-> k, embedded |-> e, responder |-> IF e = "none" THEN "I" ELSE e, verifier |-> v] :
-     k \in {"KI", "KR", "KX"}, e \in {"none", "R", "Ro", "Rf", "Rs", "Rx"}, v \in {"I", "O"}}
+  {[signer |-> k, embedded |-> e, responder |-> r, verifier |-> v] :
+     k \in {"KI", "KR", "KX"}, e \in EmbeddedIds, v \in {"I", "O"}, r \in {"I", "R", "Ro", "Rf", "Rs", "Rx"} \cup NameCollisionIds}
+  \cap {sc \in [signer : {"KI", "KR", "KX"}, embedded : EmbeddedIds, responder : CertIds, verifier : {"I", "O"}] :
+          sc.responder = "I" \/ sc.responder = sc.embedded}
 
 ScVerdict(sc) == Verdict(Resp(sc), KeyOfCert(sc.verifier))
 
 Direct1   == [signer |-> "KI", embedded |-> "none", responder |-> "I", verifier |-> "I"]
 Delegated == [signer |-> "KR", embedded |-> "R",    responder |-> "R", verifier |-> "I"]
+
+----------------------------------------------------------------------------
+(* responder ID forms (RFC 6960 ResponderID): by name or by SHA-1 key hash.  The acceptance
+   rule does not mention the responder ID at all; a response whose ID points at the issuer's
+   name or key while somebody else signed it is judged like any other.
+   rid == [kind |-> "name" | "key", target |-> certificate id] *)
+RidVerdict(sc, rid) == ScVerdict(sc)
 
 ----------------------------------------------------------------------------
 (* (4) ParseResponseForCert: singles == Seq([serial, mark]); the result is the index of the
